@@ -154,6 +154,11 @@ Definition sexec (s : sst) (o : op) : sst * out :=
                   else let '(s1, id) := snew s KBuf None in (sput s1 a (Some id), ORet 1)
       | None => (s, OX)
       end
+  | ODetachF a =>                    (* a copy that cannot be made changes nothing *)
+      match sslot s a with
+      | Some o => (s, if (stotal s o <? 2)%N then ORet 0 else OE)
+      | None => (s, OX)
+      end
   | OSetInner m a =>
       match sslot s m with
       | Some o =>
